@@ -530,6 +530,7 @@ func rulePanicType(p *Program, c *Check, funcs []*ssa.Function) {
 // REC
 
 var recTable = map[string]string{
+	"utils.rejectAmbiguousKeys": "recursion over the value tree of a decoded JSON document (finite and acyclic) guided by the static target type",
 	"electreIII.distillate,electreIII.updatePositions": "inner distillation: the cut level strictly decreases over the finite set of credibility values (getDistillationFunc rejects functions negative on [0,1], so the next level is strictly below the current one); outer distillation: the matrix loses the classed alternatives",
 }
 
@@ -639,6 +640,11 @@ func ruleND5(p *Program, c *Check, funcs []*ssa.Function) {
 				}
 				switch g.Name() {
 				case "Decode", "WeakDecode", "DecodeMetadata":
+					if guardedByKeyCheck(call, b) {
+						c.Pass("ND-5", funcKey(f), "extcall:mapstructure."+g.Name(), p.ipos(in),
+							"the same source value is first handed to utils.rejectAmbiguousKeys (compared with its reference): objects with case-variant keys never reach the decoder")
+						continue
+					}
 					c.Fail("ND-5", funcKey(f), "extcall:mapstructure."+g.Name(), p.ipos(in),
 						"struct fields are matched to request keys case-insensitively by ranging over the request map: "+
 							"with two case-variant keys in one object the winner changes from call to call")
@@ -648,6 +654,38 @@ func ruleND5(p *Program, c *Check, funcs []*ssa.Function) {
 			}
 		}
 	}
+}
+
+// guardedByKeyCheck: a call of the repository's ambiguity check on the same source value dominates the decode call.
+func guardedByKeyCheck(decode ssa.CallInstruction, b *ssa.BasicBlock) bool {
+	if len(decode.Common().Args) == 0 {
+		return false
+	}
+	src := decode.Common().Args[0]
+	isCheck := func(in ssa.Instruction) bool {
+		call, ok := in.(ssa.CallInstruction)
+		if !ok {
+			return false
+		}
+		g := call.Common().StaticCallee()
+		return g != nil && g.Blocks != nil && funcKey(g) == "utils.rejectAmbiguousKeys" && len(call.Common().Args) > 0 && call.Common().Args[0] == src
+	}
+	for _, in := range b.Instrs {
+		if in == decode.(ssa.Instruction) {
+			break
+		}
+		if isCheck(in) {
+			return true
+		}
+	}
+	for d := b.Idom(); d != nil; d = d.Idom() {
+		for _, in := range d.Instrs {
+			if isCheck(in) {
+				return true
+			}
+		}
+	}
+	return false
 }
 
 // ---------------------------------------------------------------------------
